@@ -48,7 +48,8 @@ class Importance(CellModifierInput):
                     value = node.value
                     assert value >= 0
                     values.append(node)
-                except (AttributeError, AssertionError) as e:
+                # a jump has the value None, which cannot be compared
+                except (AttributeError, AssertionError, TypeError) as e:
                     raise MalformedInputError(
                         input, f"Importances must be ≥ 0 value: {node} given"
                     )
